@@ -99,13 +99,13 @@ def replay(mod, harness, out_dir):
     return reproduced, '\n'.join(text)
 
 
-def e1_part(rep, prop, mod, harnesses, functions, bounds_text, jobs=14, per_harness_timeout=600, extra=()):
+def e1_part(rep, prop, mod, harnesses, functions, bounds_text, jobs=14, per_harness_timeout=600, extra=(), mem_kb=14_000_000):
     """runs the harnesses, reports into rep, returns the coverage dict of this part"""
     with Lock('kani'):
         crate = e1.gen_crate([mod])
         gen_tables(crate)
         res, out, rc, wall = e1.run_harnesses(mod, harnesses, jobs=jobs, timeout=per_harness_timeout * 3 + 600,
-                                              per_harness_timeout=per_harness_timeout, extra=extra)
+                                              per_harness_timeout=per_harness_timeout, extra=extra, mem_kb=mem_kb)
         if 'error: could not compile' in out or 'error[E' in out:
             rep.inconc('harness crate does not compile against the current tree:\n' + '\n'.join(
                 l for l in out.split('\n') if l.startswith('error'))[:2000])
@@ -211,7 +211,7 @@ def c02_table_part(rep, tier):
     return e1_part(rep, 'C02', 'c02', hs, jobs=4,
                    functions=['model/field.rs as_rust_type, split_type (compiled unmodified by #[path])'],
                    bounds_text='every byte string of L printable ASCII bytes without ":" as a type name, for L in {1..9, 11, 12, 13, 15, 16, 18} (every length at which a builtin name exists, plus 1 and 2)',
-                   per_harness_timeout=3000)
+                   per_harness_timeout=3000, mem_kb=40_000_000)     # CBMC's address space passes 14 GB on these (RSS stays near 4 GB)
 
 
 # ------------------------------------------------------------------------------------------------ C07(a): Kani on generated code
